@@ -10,13 +10,14 @@ Scope notes
 * ordering / `combine` theorems: all 2^12 theories, all logics (any name), no table involved;
 * table theorems (`table_*`, `*_subset_logics`): the regenerated tables, by `decide +kernel`;
 * selection theorems: arbitrary lists of supported logics and arbitrary targets;
-* detection (`oracle_wf`, `detect_covers_partial`, `detect_logic_covers_partial`): about the hand-written model
+* detection (`oracle_wf`, `detect_covers`, `detect_sort_covered`, `detect_logic_covers`, `detect_covers_wf_partial`,
+  `detect_covers_partial`, `detect_logic_covers_partial`): about the hand-written model
   `Impl/TheoryOracle.lean` of the (repaired) `TheoryOracle` and of `oracles.get_logic`, compared with the real code on
   every generated formula by the harness.
 -/
 import PySMT.Proofs.C13Table
 import PySMT.Proofs.C13Detect
-import PySMT.Core.TypeOf
+import PySMT.Proofs.C13Typed
 namespace PySMT.Logics.C13
 
 local infix:50 " ≤ₜ " => fun a b => Theory.le a b = true
@@ -175,20 +176,59 @@ bound variables, function results and array-value indices; integer-valued string
 `to_real`, strings produced from integers; constant arrays; uninterpreted applications; non-linear products,
 quotients by non-constants.
 
-`_partial`: (a) the operator-family features that a well-sorted operand already accounts for (`operandImplied`:
-bit-vector/string/array operators over bit-vector/string/array operands, parameter sorts of an applied function)
-are not derived here -- that needs the typing judgement; the harness checks the *full* `features` on every
-generated formula instead; (b) `inFragment` excludes `pow` and function symbols used as terms or bound by a
-quantifier. -/
+`_partial`: no sortedness is assumed here, so only the intrinsic part of `features` can be guaranteed (the
+operator-family features that a well-sorted operand accounts for, and the parameter sorts of applied functions,
+are covered by `detect_covers` under `Spec.HasType`); `inFragment` excludes `pow` and function symbols used as
+terms or bound by a quantifier, and asks for the arities of leaves and unary operators. -/
 theorem detect_covers_partial (t : Term) (hf : inFragment t = true) :
     (theoryOf t).covers (featuresIntrinsic t) = true := by
   simp only [inFragment, Bool.and_eq_true] at hf
   exact (covers_iff _ _).2 (theoryOf_covers t hf.1 hf.2)
 
-/-- the statement with the full feature set (not proved; see `detect_covers_partial`) -/
-def detect_covers_full_statement : Prop :=
-  ∀ t : Term, t.wt = true → Features.inFragment t = true →
-    (TheoryOracle.theoryOf t).covers (Features.features t) = true
+open PySMT.TheoryOracle PySMT.Features in
+/-- **Detection covers the formula.**  For every formula that is well-sorted by the SMT-LIB discipline
+(`Spec.HasType`, the independent specification of C03) and does not use `pow`, the detected theory enables
+*every* feature the formula uses (`Features.features`): all sorts (symbols, constants, bound variables, function
+signatures incl. parameter sorts, array-value indices), all operator families (bit-vector, string, array,
+integer-valued and real-valued conversions), constant arrays, uninterpreted symbols, custom sorts, non-linear
+arithmetic.  (`pow` must be excluded: see `detect_covers_fails_with_int_pow`.) -/
+theorem detect_covers (t : Term) (τ : Ty) (h : Spec.HasType t τ) (hp : noPow t = true) :
+    (theoryOf t).covers (features t) = true :=
+  (covers_iff _ _).2 (covers_of_hasType t τ h hp)
+
+open PySMT.TheoryOracle PySMT.Features in
+/-- the detected theory also enables the sort of the term itself -/
+theorem detect_sort_covered (t : Term) (τ : Ty) (h : Spec.HasType t τ) (hp : noPow t = true) :
+    (theoryOf t).covers (ofSort τ) = true :=
+  (covers_iff _ _).2 (theoryOf_covers_typed t τ (Spec.sortOf_of_hasType h) hp).2
+
+/-- `f(x ^ 2)` with `x : Int` and `f : Real → Bool` -/
+def intPowWitness : Term :=
+  Term.app ⟨"f", [.real], .bool⟩ [.node .pow [Term.var "x" .int, Term.int 2] .none]
+
+open PySMT.TheoryOracle PySMT.Features PySMT.Spec in
+/-- FINDING (known, F46; a consequence of F05): `pow` over integers has the rank `Int Int → Real` (pySMT's
+typing, also `Spec.Sig.pow`), but `walk_pow` only keeps the theory of the base: `f(x ^ 2)` with
+`f : Real → Bool` is well-sorted and uses the reals (parameter sort of `f`), yet the detected theory has no
+real arithmetic.  Hence the `noPow` hypothesis of `detect_covers`. -/
+theorem detect_covers_fails_with_int_pow :
+    HasType intPowWitness .bool ∧ (theoryOf intPowWitness).covers (features intPowWitness) = false := by
+  constructor
+  · rw [hasType_iff_sortOf]
+    simp [intPowWitness, Term.sortOf, allSome, sigOf, Term.app, Term.var, Term.sym, Term.int, Sym.var, isNum]
+  · simp [intPowWitness, features, own, intrinsic, operandImplied, Features.join, Features.joinAll, Features.none,
+      isIntValuedOp, isBvOp, isStrOp, ofSym, ofSort, theoryOf, rule, funBase, withUF, symTheory, theoryFromType,
+      Term.app, Term.var, Term.sym, Term.int, Sym.var, Sym.isFn, Theory.covers, Theory.combine,
+      Theory.combine.integer_difference, Theory.combine.real_difference, Theory.default, Theory.copy,
+      Theory.set_linear]
+
+open PySMT.TheoryOracle PySMT.Features in
+/-- the same for every term pySMT's own checker accepts with the constructors' arities (`Term.wf`, which
+excludes `pow`).  `_partial`: outside the holes of the checker (`Term.noF06`, the exclusion of C03's soundness
+theorem: e.g. quantifiers "binding" function symbols), where accepted terms need not be well-sorted. -/
+theorem detect_covers_wf_partial (t : Term) (hwf : t.wf = true) (hex : t.noF06 = true) :
+    (theoryOf t).covers (features t) = true :=
+  (covers_iff _ _).2 (covers_of_wf t hwf hex)
 
 open PySMT.TheoryOracle PySMT.Features in
 /-- the logic `get_logic` labels the formula with is a pySMT logic whose theory enables every intrinsic feature
@@ -198,6 +238,16 @@ theorem detect_logic_covers_partial (t : Term) (L : Logic) (hf : inFragment t = 
     L ∈ PYSMT_LOGICS ∧ L.theory.covers (featuresIntrinsic t) = true ∧
     (hasQuant t = true → L.quantifier_free = false) :=
   ⟨(getLogic_spec t L h).1, (covers_iff _ _).2 (getLogic_covers t L hf h).1, (getLogic_covers t L hf h).2⟩
+
+open PySMT.TheoryOracle PySMT.Features in
+/-- **The logic a formula is labelled with can express it**: whatever `get_logic` returns for a well-sorted,
+`pow`-free formula is a pySMT logic whose theory enables every feature of the formula, and which allows
+quantifiers if the formula has any. -/
+theorem detect_logic_covers (t : Term) (τ : Ty) (L : Logic) (h : Spec.HasType t τ) (hp : noPow t = true)
+    (hl : getLogic t = .ok L) :
+    L ∈ PYSMT_LOGICS ∧ L.theory.covers (features t) = true ∧ (hasQuant t = true → L.quantifier_free = false) :=
+  have hs := getLogic_spec t L hl
+  ⟨hs.1, (covers_iff _ _).2 (hs.2.1.trans (covers_of_hasType t τ h hp)), hs.2.2⟩
 
 /-! ## Non-vacuity -/
 
@@ -244,6 +294,12 @@ example : inFragment exBound = true ∧ (featuresIntrinsic exBound).bit_vectors 
     (theoryOf exBound).bit_vectors = true ∧ hasQuant exBound = true := by eval_terms
 example : inFragment exDiv = true ∧ (featuresIntrinsic exDiv).linear = false ∧
     (theoryOf exDiv).linear = false := by eval_terms
+-- the hypotheses of `detect_covers` / `detect_logic_covers` are satisfiable on exactly these formulas
+example : Spec.HasType exIntToStr .bool ∧ Spec.HasType exBound .bool ∧ Spec.HasType exDiv .bool ∧
+    noPow exIntToStr = true ∧ noPow exBound = true ∧ noPow exDiv = true := by
+  simp only [Spec.hasType_iff_sortOf]
+  simp [exIntToStr, exBound, exDiv, noPow, Term.sortOf, Spec.allSome, Spec.sigOf, Spec.plainVars, Spec.isNum,
+    Term.mkEq, Term.mkForall, Term.var, Term.sym, Term.real, Sym.var]
 end
 
 end PySMT.Logics.C13
